@@ -787,6 +787,58 @@ def iso_out_sweep_traces(mp, epn):
     return out
 
 
+def iso_out_space_gap_sweeps(mp, buf, epn, full):
+    """Systematic sweep of  free space at the OUT token  x  rx_valid gap position/length  x  consumer drain inside
+    the packet (no randomness).  Every case starts from an empty buffer with the consumer stalled; fill packets
+    (each finding >= MaxPkt free, hence delivered) leave exactly F free bytes, F in {MaxPkt-1, MaxPkt, MaxPkt+1,
+    2*MaxPkt-1}; then a max-size or short packet is sent with a gap of 1..3 idle cycles after its byte k (k = 1, 2,
+    last; the PHY always leaves such gaps at full speed) and, in the drain cases, the consumer takes n = 1 or MaxPkt
+    entries starting at every offset d after the token.  At F = MaxPkt-1 the endpoint may deliver or drop, but the
+    whole packet; from F = MaxPkt on it must deliver it.  Returns [(ops, origin)]."""
+    out = []
+    nb = [0]
+
+    def pl(n):
+        v = [(nb[0] + i) % 255 + 1 for i in range(n)]
+        nb[0] += n
+        return v
+    tok = ("tok", "OUT", 0, epn)
+
+    def case(F, ln, gaps, timed):
+        ops = [("drain",), ("ready", 0.0)]
+        fill = buf - F
+        while fill > 0:
+            n = min(mp, fill)
+            ops += [tok, ("data", "DATA0", pl(n), 0)]
+            fill -= n
+        ops += [("idle", 4), ("tok", "OUT", 0, epn, timed), ("data", "DATA1", pl(ln), 0, [], gaps), ("idle", 10)]
+        return ops
+    spaces = [F for F in sorted({mp - 1, mp, mp + 1, 2 * mp - 1}) if 0 <= F <= buf]
+    lens = sorted({mp, min(2, mp)})
+    for F in spaces:
+        ops = []
+        for ln in lens:
+            for k in sorted({1, min(2, ln), ln}):
+                for g in (1, 2, 3):
+                    gaps = [0] * (ln + 3)
+                    gaps[k + 1] = g                      # idle cycles after payload byte k (before byte k+1 / the CRC)
+                    ops += case(F, ln, gaps, [])
+        ops += [("drain",)]
+        out.append((ops, "sweep/space=%d/gap-after-byte" % F))
+        for ln in lens:
+            for n in (1, mp):
+                ops = []
+                for d in (range(0, 14) if full else range(0, 14, 2)):
+                    gaps = [0] * (ln + 3)
+                    gaps[2] = 2                          # two idle cycles right after the first byte
+                    if ln > 1:
+                        gaps[ln + 1] = 1
+                    ops += case(F, ln, gaps, [(d, n, 1.0)])
+                ops += [("drain",)]
+                out.append((ops, "sweep/space=%d/len=%d/drain-%d-at-offset" % (F, ln, n)))
+    return out
+
+
 def iso_out_ops_from_behaviour(beh, rng):
     """(config, ops) of a behaviour generated by TLC from MCIsoOut"""
     conf = beh[0][1]["conf"]
@@ -910,14 +962,19 @@ def check_C16(rep):
     for mp, buf, epn in ([(4, 8, 3)] if quick else [(4, 8, 3), (8, 20, 5), (2, 4, 1)]):
         for ops, origin in iso_out_sweep_traces(mp, epn):
             run(mp, buf, epn, iso_out_ops_scenario(ops, _random.Random(1)), origin, "clean", {})
+    # (b'') free space at the token x rx_valid gap x consumer drain inside the packet
+    for mp, buf, epn, full in ([(4, 8, 3, True), (3, 5, 1, False)] if quick else
+                               [(4, 8, 3, True), (3, 5, 1, True), (8, 20, 5, False), (2, 4, 1, True), (4, 11, 1, True)]):
+        for ops, origin in iso_out_space_gap_sweeps(mp, buf, epn, full):
+            run(mp, buf, epn, iso_out_ops_scenario(ops, _random.Random(1)), origin, "space-gap-sweep", {})
     # (c) witness stimuli for finding C16-space-checked-per-byte
     for mp, buf, epn in ([(4, 8, 3), (3, 5, 1), (8, 20, 5)] if quick else [(4, 8, 3), (3, 5, 1), (8, 20, 5), (2, 4, 1), (16, 32, 2)]):
         for variant in (0, 1):
             run(mp, buf, epn, iso_out_ops_scenario(iso_out_witness_ops(mp, buf, epn, variant), _random.Random(1)),
-                "witness-appendix-A", "witness", {})
+                "witness-appendix-A", "witness", {"gap_prob": [0.0, 0.5][variant]})
         for i in range(2 if quick else 8):
             run(mp, buf, epn, iso_out_random_scenario(_random.Random(rep.rng.random()), 14, clean=False),
-                "random-unsteered", "witness", {})
+                "random-unsteered", "witness", {"gap_prob": [0.4, 0.0][i % 2]})
 
     validate_all(rep, "IsoOutTrace", items, classify_iso_out, what_prefix="C16 ", dfs=True)
     n_w = sum(1 for _, m in items if m["class"] == "witness")
